@@ -91,6 +91,8 @@ struct Th {
     // API-call bookkeeping (set by the harness through begin_call/end_call)
     noblock: bool,
     call_points: u32,
+    /// parked by the harness until every other thread is blocked, yielded or done
+    quiesce: bool,
 }
 
 #[derive(Clone)]
@@ -632,7 +634,12 @@ pub fn futex_wake(p: *mut u32, n: i32) -> usize {
             0
         } else {
             e.features |= F_WAKE_CHOICE;
-            let opts = vec![[0u8, 0, 0]; waiters.len()];
+            let mut opts = vec![[0u8, 0, 0]; waiters.len()];
+            if cfg!(feature = "wide") {
+                for o in opts.iter_mut().skip(1) {
+                    *o = [0, 1, 0];
+                }
+            }
             e.choose(&opts)
         };
         let w = waiters.remove(k);
@@ -709,6 +716,27 @@ pub fn note(s: impl FnOnce() -> String) {
     if let Some(e) = ex() {
         e.tr(s);
     }
+}
+
+/// Harness primitive: park the calling thread (a scheduling point that costs no preemption) until every other
+/// thread is blocked, fairness-yielded or done.  Used to build "holder keeps the lock until all waiters are parked"
+/// scenarios with many threads without paying for the interleavings that lead there.
+pub fn hold_until_quiescent() {
+    let Some(e) = ex() else { return };
+    if e.aborting {
+        return;
+    }
+    let t = e.cur;
+    e.th[t].quiesce = true;
+    e.th[t].pending = Pending::None;
+    generator::yield_with(());
+    let e = ex().unwrap();
+    if e.aborting {
+        resume_unwind(Box::new(AbortToken));
+    }
+    e.th[t].quiesce = false;
+    e.th[t].writeless = 0;
+    e.tr(|| "resumes: all other threads are parked".to_string());
 }
 
 /// Harness marks the start of an API call; `noblock` = a try_* call.
@@ -850,6 +878,7 @@ fn run_execution(model: &dyn Model, pool: &mut Pool, e: &mut Exec) -> (End, Stri
             seen: Vec::new(),
             noblock: false,
             call_points: 0,
+            quiesce: false,
         });
     }
     e.locs.clear();
@@ -883,7 +912,10 @@ fn run_execution(model: &dyn Model, pool: &mut Pool, e: &mut Exec) -> (End, Stri
         }
         opts.clear();
         acts.clear();
-        let last_enabled = e.last_run.map(|t| e.th[t].status == Status::Runnable).unwrap_or(false);
+        // a thread parked by `hold_until_quiescent` is not eligible while any other thread can run
+        let others_can_run = (0..n).any(|t| e.th[t].status == Status::Runnable && !e.th[t].quiesce);
+        let eligible = |e: &Exec, t: usize| e.th[t].status == Status::Runnable && !(e.th[t].quiesce && others_can_run);
+        let last_enabled = e.last_run.map(|t| eligible(e, t)).unwrap_or(false);
         if let Some(lr) = e.last_run {
             if last_enabled {
                 opts.push([0, 0, 0]);
@@ -891,8 +923,11 @@ fn run_execution(model: &dyn Model, pool: &mut Pool, e: &mut Exec) -> (End, Stri
             }
         }
         for t in 0..n {
-            if Some(t) != e.last_run.filter(|_| last_enabled) && e.th[t].status == Status::Runnable {
-                opts.push([last_enabled as u8, 0, 0]);
+            if Some(t) != e.last_run.filter(|_| last_enabled) && eligible(e, t) {
+                // many-thread builds: when the running thread blocked or finished, picking anything but the lowest
+                // runnable id counts as a deviation (otherwise dozens of runnable threads give factorially many orders)
+                let forced_switch_dev = cfg!(feature = "wide") && !last_enabled && !acts.is_empty();
+                opts.push([last_enabled as u8, forced_switch_dev as u8, 0]);
                 acts.push((t, 1));
             }
         }
